@@ -20,6 +20,7 @@ import shutil
 import subprocess
 import sys
 import tempfile
+import threading
 import time
 from concurrent.futures import ThreadPoolExecutor
 
@@ -280,39 +281,46 @@ class PyReport:
         self.exhaustive = []
         self.assumptions = []
         self.t0 = time.time()
+        self._lk = threading.Lock()
 
     def eval(self, n=1):
-        self.evaluations += n
+        with self._lk:
+            self.evaluations += n
 
     def nontrivial(self, key):
         if not isinstance(key, (bytes, bytearray)):
             key = repr(key).encode()
-        self.distinct.add(hashlib.blake2b(key, digest_size=8).hexdigest())
+        with self._lk:
+            self.distinct.add(hashlib.blake2b(key, digest_size=8).hexdigest())
 
     def count(self, name, n=1):
-        self.counters[name] = self.counters.get(name, 0) + n
+        with self._lk:
+            self.counters[name] = self.counters.get(name, 0) + n
 
     def require(self, name, minimum):
         self.required.append([name, minimum])
 
     def sample(self, v, cap=6):
-        if len(self.samples) < cap:
-            self.samples.append(v)
+        with self._lk:
+            if len(self.samples) < cap:
+                self.samples.append(v)
 
     def note(self, s):
         self.notes.append(s)
 
     def violation(self, sig, msg, replay):
-        self.violations_total += 1
-        c = self.sig_counts.get(sig, 0) + 1
-        self.sig_counts[sig] = c
-        if c <= 3 and len(self.violations) < 60:
-            self.violations.append({"sig": sig, "msg": msg, "replay": replay})
+        with self._lk:
+            self.violations_total += 1
+            c = self.sig_counts.get(sig, 0) + 1
+            self.sig_counts[sig] = c
+            if c <= 3 and len(self.violations) < 60:
+                self.violations.append({"sig": sig, "msg": msg, "replay": replay})
 
     def inconc(self, what):
-        self.inconclusive_total += 1
-        if len(self.inconclusive) < 20:
-            self.inconclusive.append(what)
+        with self._lk:
+            self.inconclusive_total += 1
+            if len(self.inconclusive) < 20:
+                self.inconclusive.append(what)
 
     def to_json(self, seed=0, tier="quick"):
         return {
